@@ -56,6 +56,19 @@ def run(ctx):
             ss = mmlgen.samples()
             srcs.append(mmlgen.mutate(rng, rng.choice(ss)) if ss else "c")
     srcs += mmlgen.samples() + ["", " ", "TimeBase(40000) c", "TR(999) c", "TR(5) c TR(2) c", "End c"]
+    # chunk bodies around and beyond 2^16 and 2^17 bytes (the length field has four bytes; one l16 note = 8 bytes)
+    for k in ([8190, 8192, 10000] if ctx.tier == "quick" else [8189, 8190, 8191, 8192, 8193, 10000, 16384, 17000, 33000]):
+        srcs.append("TR=1 l16 [%d c] TR=2 cde" % k)
+    srcs.append("TR=2 l16 " + "c" * 9000 + " TR=1 cde TR=3 [8300 'ce']")
+    # raw bytes written by the user (DirectSMF), also ones that look like an End-of-Track, anywhere in a track
+    for _ in range(30 if ctx.tier == "quick" else 600):
+        raw = rng.choice(["DirectSMF(255,47,0)", "DirectSMF($FF,$2F,0)", "DirectSMF(255,47,0) DirectSMF(255,47,0)", "DirectSMF($B0,7,100)",
+                          "DirectSMF(255,1,1,65)", "DirectSMF(0,255,47,0)"])
+        parts = [mmlgen.block(rng, 1, rng.randrange(0, 3), {}), raw, mmlgen.block(rng, 1, rng.randrange(0, 3), {})]
+        if rng.random() < 0.4:
+            parts = ["TR(1) "] + parts + [" TR(2) ", mmlgen.block(rng, 1, 2, {}), rng.choice(["", raw])]
+        srcs.append(" ".join(parts))
+    srcs += ["DirectSMF(255,47,0) c", "TR(1) c DirectSMF($FF,$2F,0) d TR(2) e", "cde DirectSMF(255,47,0)"]
     lines = ["compile_ev\t%s" % vlib.enc_text(s) for s in srcs]
     got = ctx.impl(lines, stall=20)
     for s, g in zip(srcs, got):
